@@ -20,7 +20,7 @@ WITNESS = '<rect id="vf_witness" x="70" y="70" width="20" height="20" fill="#010
 TAGK = {'svg': 'TSvg', 'g': 'TG', 'path': 'TShape', 'rect': 'TShape', 'use': 'TUse', 'symbol': 'TSymbol',
         'clipPath': 'TClipPath', 'mask': 'TMask', 'filter': 'TFilter', 'feImage': 'TFeImage', 'feFlood': 'TFeOther',
         'feOffset': 'TFeOther', 'pattern': 'TPattern', 'linearGradient': 'TGradient', 'radialGradient': 'TGradient',
-        'a': 'TG', 'stop': 'TStop', 'marker': 'TMarker', 'defs': 'TOther', 'text': 'TText', 'tspan': 'TTspan', 'style': 'TStyle'}
+        'a': 'TG', 'switch': 'TSvg', 'stop': 'TStop', 'marker': 'TMarker', 'defs': 'TOther', 'text': 'TText', 'tspan': 'TTspan', 'style': 'TStyle'}
 AKEY = {'href': 'AHref', 'fill': 'AFill', 'stroke': 'AStroke', 'clip-path': 'AClip', 'mask': 'AMask', 'filter': 'AFilter',
         'marker-start': 'AMStart', 'marker-mid': 'AMMid', 'marker-end': 'AMEnd'}
 KIND_ATTR = {'fill': 'fill', 'stroke': 'stroke', 'clip': 'clip-path', 'mask': 'mask', 'filter': 'filter',
